@@ -121,7 +121,8 @@ Inductive sstep := Accept (k : nat) | Block | Errno.
 Inductive op :=
 | OWrite (d : list N)     (* stream.write(d), d bytes or memoryview *)
 | OReady                  (* the IOLoop reports the fd writable *)
-| OClose.                 (* stream.close() *)
+| OClose                  (* stream.close() *)
+| OCancel (id : nat).     (* the caller cancels the future returned by write #id *)
 
 (* everything observable, in the order it happens *)
 Inductive event :=
@@ -133,6 +134,9 @@ Inductive event :=
 | EErr (offered : nat)            (* write_to_fd raised OSError *)
 | EResolve (id : nat)             (* future #id resolved with None *)
 | EFail (id : nat)                (* future #id failed with StreamClosedError *)
+| ECancel (id : nat)              (* the caller cancelled pending future #id *)
+| ECancelNo (id : nat)            (* cancel() had no effect: future #id already settled / unknown *)
+| ESkip (id : nat)                (* _handle_write dequeued cancelled future #id and left it cancelled *)
 | EReady (delivered : bool)       (* WRITE event; delivered iff listening *)
 | EConnect                        (* stream.connect() was called: the connection is pending *)
 | EConnected                      (* _handle_connect succeeded: connect future resolved *)
@@ -182,21 +186,51 @@ Definition set_script (sc : list sstep) (s : stream) : stream :=
   mkst (thr s) (maxb s) (wb s) (twi s) (twd s) (wfut s) (nfut s) (closed s)
        (listening s) sc (dead s) (connecting s) (conn_ok s) (tr s).
 
-(* close(): fail every outstanding write future in queue order, drop the buffer *)
+(* futures returned and not yet settled, oldest first *)
+Fixpoint pending_ids (t : list event) : list nat :=
+  match t with
+  | [] => []
+  | EWrite id _ :: t' => pending_ids t' ++ [id]
+  | EResolve id :: t' => filter (fun j => negb (j =? id)) (pending_ids t')
+  | EFail id :: t' => filter (fun j => negb (j =? id)) (pending_ids t')
+  | ECancel id :: t' => filter (fun j => negb (j =? id)) (pending_ids t')
+  | _ :: t' => pending_ids t'
+  end.
+(* futures still sitting in _write_futures (cancelled ones stay queued until dequeued), oldest first *)
+Fixpoint queued_ids (t : list event) : list nat :=
+  match t with
+  | [] => []
+  | EWrite id _ :: t' => queued_ids t' ++ [id]
+  | EResolve id :: t' => filter (fun j => negb (j =? id)) (queued_ids t')
+  | ESkip id :: t' => filter (fun j => negb (j =? id)) (queued_ids t')
+  | EFail id :: t' => filter (fun j => negb (j =? id)) (queued_ids t')
+  | _ :: t' => queued_ids t'
+  end.
+
+(* was future #id cancelled by the caller? *)
+Fixpoint cancelled_in (id : nat) (t : list event) : bool :=
+  match t with
+  | [] => false
+  | ECancel id' :: t' => (id' =? id) || cancelled_in id t'
+  | _ :: t' => cancelled_in id t'
+  end.
+
+(* close(): fail every outstanding (not cancelled) write future in queue order, drop the buffer *)
 Definition close_stream (s : stream) : stream :=
   if closed s then s
   else mkst (thr s) (maxb s) empty_buf (twi s) (twd s) [] (nfut s) true false
             (script s) (dead s) false (conn_ok s)
             ((if connecting s then [EConnFail] else []) ++
-             rev (map (fun p => EFail (snd p)) (wfut s)) ++ tr s).
+             rev (map EFail (filter (fun i => negb (cancelled_in i (tr s))) (map snd (wfut s)))) ++ tr s).
 
-(* the second loop of _handle_write *)
+(* the second loop of _handle_write; future_set_result_unless_cancelled leaves a cancelled future alone *)
 Fixpoint resolve_loop (q : list (nat * nat)) (done : nat) (t : list event)
   : list (nat * nat) * list event :=
   match q with
   | [] => ([], t)
   | (idx, id) :: q' =>
-      if done <? idx then (q, t) else resolve_loop q' done (EResolve id :: t)
+      if done <? idx then (q, t)
+      else resolve_loop q' done ((if cancelled_in id t then ESkip id else EResolve id) :: t)
   end.
 Definition resolve (s : stream) : stream :=
   let '(q, t) := resolve_loop (wfut s) (twd s) (tr s) in
@@ -285,6 +319,10 @@ Definition do_ready (s : stream) : stream :=
     if dead s2 || closed s2 then s2
     else set_listening (0 <? bsize (wb s2)) s2.
 
+(* future.cancel() by the caller: effective only while the future is pending; the stream is not told *)
+Definition do_cancel (id : nat) (s : stream) : stream :=
+  if existsb (Nat.eqb id) (pending_ids (tr s)) then emit (ECancel id) s else emit (ECancelNo id) s.
+
 Definition snapshot (s : stream) : event :=
   if closed s then ESnapClosed
   else ESnap (bsize (wb s)) (twi s) (twd s) (listening s) (first_pos (wb s))
@@ -297,6 +335,7 @@ Definition do_op (o : op) (s : stream) : stream :=
               | OWrite d => do_write d s
               | OReady => do_ready s
               | OClose => close_stream (emit EClose s)
+              | OCancel id => do_cancel id s
               end in
     if dead s' then s' else emit (snapshot s') s'.
 
@@ -341,15 +380,6 @@ Fixpoint written_through (id : nat) (t : list event) : option (list N) :=
   | EWrite id' d :: t' =>
       if id' =? id then Some (written_of t) else written_through id t'
   | _ :: t' => written_through id t'
-  end.
-(* futures returned and not yet settled, oldest first *)
-Fixpoint pending_ids (t : list event) : list nat :=
-  match t with
-  | [] => []
-  | EWrite id _ :: t' => pending_ids t' ++ [id]
-  | EResolve id :: t' => filter (fun j => negb (j =? id)) (pending_ids t')
-  | EFail id :: t' => filter (fun j => negb (j =? id)) (pending_ids t')
-  | _ :: t' => pending_ids t'
   end.
 
 (* the most recent state snapshot (one is taken after every operation) *)
@@ -412,6 +442,8 @@ Definition event_ok (e : event) (past : list event) : bool :=
          | [] => false
          end
   | EFail id => existsb (Nat.eqb id) (pending_ids past)
+  | ECancel id => existsb (Nat.eqb id) (pending_ids past)
+  | ESkip id => cancelled_in id past
   | EConnect => match past with [] => true | _ => false end
   | EConnected => connecting_tr past
   | EConnFail => connecting_tr past
